@@ -50,6 +50,15 @@ func allChecks() []*Check {
 				c.Thorough[i].Confirm = confirm
 			}
 		}
+		if c.ID == "C11" {
+			// the data-race clause: every C11 job runs with the happens-before detector (race.go)
+			for i := range c.Quick {
+				c.Quick[i].Race = true
+			}
+			for i := range c.Thorough {
+				c.Thorough[i].Race = true
+			}
+		}
 	}
 	return cs
 }
